@@ -127,6 +127,15 @@ class Run:
                 t.cancel()
         return [self.gw.fd] if self.gw.readable() else []
 
+    def on_idle(self):
+        """the loop has nothing to do: start the first caller that is still waiting for its start condition"""
+        for name in self.callers:
+            ev = self.events[name]
+            if not ev.is_set():
+                ev.set()
+                return True
+        return False
+
     def _cond(self, cond, now):
         if "time" in cond:
             return now + 1e-12 >= cond["time"]
@@ -260,6 +269,7 @@ class Run:
         sc = self.sc
         self.loop.boundary = self.boundary
         self.loop.next_external = self.next_external
+        self.loop.on_idle = self.on_idle
         out = {"setup_exc": "none"}
         try:
             await asyncio.wait_for(self.setup_and_connect(), timeout=sc.get("connect_timeout", 30))
@@ -336,6 +346,10 @@ def run_scenario(sc):
             gap = max(0.0, ne - loop.time())
             if timeout is None or gap < timeout:
                 timeout = gap
+        if (timeout is None or timeout > 3.0) and not r.gw.readable() and not (r.gw.pending and r.gw.pending[0][0] <= loop.time()):
+            # nothing will happen for a long while: a caller still waiting for an unreachable start condition starts now
+            if r.on_idle():
+                return orig_select(0)
         return orig_select(timeout)
     loop.select = select
     info = {"loop_exc": "none"}
